@@ -65,7 +65,7 @@ def main():
             rc, out = sh("cargo nextest run --workspace --no-fail-fast --offline 2>&1 | tail -3", cwd=wt)
             suite_ok = "2152 passed" in out and "failed" not in out.split("Summary")[-1]
             result["suite_with_patch"] = out.strip().splitlines()[-1] if out.strip() else ""
-            demo_cmd = meta.get("demo_cmd", "")
+            demo_cmd = meta.get("demo_cmd", "").split("#")[0]
             if demo == "demo.rs":
                 os.makedirs(os.path.join(wt, "crates/sas-lexer/tests"), exist_ok=True)
                 shutil.copy(os.path.join(src, demo), os.path.join(wt, "crates/sas-lexer/tests/demo.rs"))
